@@ -30,6 +30,66 @@ CHECKS = {
         text="6 unsupported keywords inserted at every one of the 13 schema positions of every document of the bound; parse outcome compared with the model and judged by R_C20.",
         note="Reference cycles are realised as files and parsed through json-ref-dict + statham.__main__.",
         ref="5/C20"),
+    "C02": dict(
+        technique="TLC-enumerated reference graphs (MC_Refs.tla: nodes, $ref edges at every schema position, two files, clashing titles) driven through the real statham.__main__.main; generated module executed and compared with the directly parsed models; facts adjudicated by Trace_Refs (R_C02) incl. Draft6.tla verdicts of the generated root",
+        text="Every document set within the bound (<=3 schema nodes, <=2-3 $ref edges over 6-11 positions, local and cross-file references, diamonds, unreachable definitions, equal explicit titles) goes through the real command-line function; the module must execute with only its own imports, declare every class once and before use, exactly the classes of the direct parse, each equal to it, and the generated root must give the Draft-6 verdict on the value universe.",
+        note="'one class per distinct object schema' is judged against the directly parsed tree (bijection by name + equality); statements are analysed with Python's ast; Draft6.tla resolves $ref inside the document set.",
+        ref="5/C02"),
+    "C03": dict(
+        technique="every exported document state parsed, serialized with the real serialize_json, and the document adjudicated by TLC (Meta.tla metaschema, reference resolution, Draft6.tla verdict sets against the element's observed verdicts on the value universe)",
+        text="serialize_json output of every element tree of the document family is checked by TLC to be a well-formed Draft-6 schema with resolvable acyclic references that gives, for each of 48 values, the verdict the element itself gave.",
+        note="Element trees are the parser's image plus DSL rebuilds; DSL-only shapes (explicit required next to properties, renamed properties) are reached through parsed documents with the same shape.",
+        ref="5/C03"),
+    "C06": dict(
+        technique="round trips on every exported document state: serialize(parse(doc)) -> parse -> serialize through the real dereferencing path, and the same starting from the DSL rebuild of the MODEL's element (serializer image reached without the parser); exec of generated Python; equalities adjudicated by TLC (R_C06)",
+        text="J0 = serialize(parse(doc)) and Jm = serialize(DSL(model element)) must both be fixpoints of serialize . parse; executing the generated module must yield classes equal to the parsed ones (real == and structural projection).",
+        note="Jm uses the implementation model's Parse(doc) as the description of the normal form, so a parser change that alters the first read is visible.",
+        ref="5/C06"),
+    "C07": dict(
+        technique="TLC reference predicate over skeleton positions (PropsSer.tla SameFacts: defaults and object descriptions of the document vs the parsed element, the serialized document, the executed generated classes) on every exported document state and every reference graph; Docstring.tla (emit/lex model of class docstrings) explored by MC_Desc and replayed",
+        text="Defaults (13 literals incl. all falsy ones) at every schema position and on every shape; shared definitions re-parsed through $ref; descriptions over 12 character classes up to length 3 (quick) / 4 (thorough) emitted as docstrings, executed and read back.",
+        note="Skeleton paths ignore composition/type-list restructuring; keywords inapplicable to the declared type are outside the normal form.",
+        ref="5/C07"),
+    "C08": dict(
+        technique="Lifecycle.tla heap state machine; TLC checks PureValidate as an action property on the model; every history (BFS <=2-3 steps + simulate) replayed on fresh real objects with a before/after recorder; each recorded step validated against the specification by Trace_Heap",
+        text="For every history ending in a validation call: projected heap, deep vars() snapshot (incl. property bindings and UNBOUND_PROPERTY), repr, JSON and Python serializations, equality with a fresh copy and the input value are compared before/after; the call is repeated.",
+        note="Heap of three objects (untyped element, class, subclass) with fixed argument sets; results of the document family are additionally probed for aliasing by defacing returned results (C04/C05 runs).",
+        ref="5/C08"),
+    "C09": dict(
+        technique="MC_Refs / MC_Doc documents generated in separate processes under several PYTHONHASHSEED values chosen to realise different set iteration orders; outputs (module text + JSON) adjudicated equal by Trace_Refs",
+        text="16 interpreter processes are probed, one per realised iteration order of the composition keywords is kept (>= 6 seeds); every document set (reference graphs, seeds with equally titled objects under anyOf/oneOf/allOf/properties/patternProperties) must give byte-identical output in all of them.",
+        note="Determinism is observed, not proved, for the sampled seeds; the model names every set iteration of the code as an explicit choice (DESIGN 5/C09).",
+        ref="5/C09"),
+    "C13": dict(
+        technique="Lifecycle.tla reconfiguration actions; every history replayed on long-lived real objects; Trace_Heap requires each reconfiguration step to change the projected heap exactly as the spec action and each validation to agree with a freshly built object of the same configuration",
+        text="All histories of SetKeyword/ClearKeyword/PutProperty/DelProperty/ToggleRequired/Validate up to length 2 (all) and 3 (validate;reconfigure;validate) plus simulated histories of length 7-10, on an element, a class and a subclass.",
+        note="Fresh objects are rebuilt through the public DSL from the attribute projection.",
+        ref="5/C13"),
+    "C15": dict(
+        technique="Lifecycle.tla Merge (ObjectMeta.__new__) and ParentIsolated action property checked by TLC; real subclass D(C) compared with the spec's merge, with a flat class, and parent observables compared around every child operation by Trace_Heap",
+        text="Subclass with overridden keyword, overridden and added properties; every child operation (define, validate, keyword reassignment, property add/replace/remove, in-place mutation of an inherited property) must leave the parent's projection, verdicts and JSON unchanged; child == flat merged class in verdicts and JSON; instances are instances of the parent.",
+        note="One parent/child declaration per run (keywords inherited and overridden); in-place mutation of inherited dict-valued keywords is not generated.",
+        ref="5/C15"),
+    "C16": dict(
+        technique="TLA+ registry state machine (Formats.tla: Register/Check over registry, history variable) checked by TLC; every complete history replayed on the real format_checker through String/Element(format=) with outcome and warnings compared after every step; RFC 3339 / canonical-UUID strings generated by a TLA+ field-choice builder and validated; drift adjudicated by Trace_Formats (registry inferred from recorded Register events) against R_C16",
+        text="All histories of Register/Check up to length 4 (quick) / 5-6 on reduced alphabets + simulated length 10 (thorough) over 3 names x 4 checkers x 6-11 values incl. the pre-registered built-in; every generated date-time/uuid string within 2 (quick) / 9 and 4 (thorough) field substitutions of the base strings. Exhaustive within the stated bounds, sampled beyond.",
+        note="Format names other than uuid are introduced in canonical order (fresh concrete names per behaviour); abstract checkers are pure; date-time/uuid acceptance claimed for the generated grammars only (second 60 only at real leap seconds, UTC-representable instants); R_C16 is in Formats.tla.",
+        ref="5/C16"),
+    "C17": dict(
+        technique="pairs of documents one insertion / one literal apart (builder edges of MC_Doc and look-alike literals True/1/1.0, longer/shorter lists) parsed on the real code; ==, verdict vectors and JSON adjudicated by TLC (PropsElem.tla C17_Clause: symmetry, congruence with validation and serialization), independent copies equal",
+        text="For every exported document: the element vs itself, vs an independently parsed copy, vs every document with one keyword removed (root and one level down) and vs look-alike literal variants; whenever == says equal, the 48 verdicts and the inlined, title-free JSON documents must coincide.",
+        note="Pairs are neighbours in the builder graph, not all pairs.",
+        ref="5/C17"),
+    "C18": dict(
+        technique="repr of every element of every parsed tree (and of its DSL rebuild with shared instances, and of unbound property wrappers) evaluated in a namespace of the public classes; rebuilt tree adjudicated by TLC (ElemSame, keyword presence) ",
+        text="eval(repr(e)) must be == e and structurally identical (type-exact literals); keyword arguments shown = keywords differing from the constructor default.",
+        note="Bound properties are covered through their enclosing element (their repr omits source by design when it equals the name).",
+        ref="5/C18"),
+    "C19": dict(
+        technique="every exported document placed under a property, a required property and array items of a model through the real parser; annotation text taken from the generated source, parsed to a type expression and adjudicated by TLC (HasType) against the runtime values of all accepted inputs",
+        text="HasType reads the annotation as a type checker (List element types, Union members, NotPassed only under Maybe, int under float); non-Maybe annotations require required-or-defaulted and presence.",
+        note="Documents with a default invalid for its schema are outside the property's quantifier (AllDefaultsValid).",
+        ref="5/C19"),
 }
 
 
